@@ -223,7 +223,14 @@ def cli_check(ctx, hl, dist, cov, only=None, only_q=None):
         return
     wf = WFGen(rng, cli=True, max_hosts=30)
     fixed = [b"a[0-99999999999999999999]", b"a[1-99999]", b"a[2-1]", b"a[1", b"a]", b"a[1x-3]", b"a[1-3],b]",
-             b"a[18446744073709551614-18446744073709551615]", b"a[0-99999999999999999999]x", b"a[1]]", b"x" * 1023]
+             b"a[18446744073709551614-18446744073709551615]", b"a[0-99999999999999999999]x", b"a[1]]", b"x" * 1023,
+             # an unbalanced word NEXT TO a good one (split.c cuts the argument at commas outside brackets, every
+             # comma-word goes through hostlist_push on its own): before, after, between, level going negative
+             b"b,a[1", b"a],b", b"b,a]", b"a[1,b", b"x,a[1]],y", b"a[1-2]b[,c", b"b,a[1]b[", b"a]b[1],c"]
+    # which variant of opt.c is under test: does `-w` go on without a comma-word whose parse failed? (behavioural
+    # probe; F15-CLI-WORD-DROPPED.  A repaired tree refuses the whole argument.)
+    drops = only_q is None and cli.query("b,a[1", timeout=20)[0] == "ok"
+    dist["cli-variant"] = "failed word dropped silently" if drops else "failed word refused"
     nslow = 0
     cases = list(fixed) if only is None else [only]
     if only_q:
@@ -268,7 +275,11 @@ def cli_check(ctx, hl, dist, cov, only=None, only_q=None):
         else:
             mcls = m
         icls = "crash" if cls.startswith("crash") else cls
-        if icls != mcls and not (mcls == "crash" and icls in ("ok", "nohosts")):
+        v0 = parse_spec(sp)
+        unbal = (not v0["ok"]) and "unbalanced" in v0["problems"]
+        if unbal and not drops and icls not in ("ok", "crash", "timeout"):
+            pass    # repaired opt.c: the argument is refused where the model (code as found) drops the word
+        elif icls != mcls and not (mcls == "crash" and icls in ("ok", "nohosts")):
             ctx.disagreement("hl model (cli) vs pdsh -Q", "text %r: pdsh %s model %s" % (s[:200], cls, m[:200]), case)
         if cls.startswith("crash") or cls == "timeout":
             big = feat_big(s)
@@ -283,6 +294,14 @@ def cli_check(ctx, hl, dist, cov, only=None, only_q=None):
             ctx.offender(sig, "pdsh -Q -w TEXT: %s" % cls, case)
             continue
         v = parse_spec(sp)
+        if unbal and cls == "ok":
+            # the text says: unbalanced brackets make the parse fail.  pdsh went on (exit 0, hosts listed).
+            # `:word-dropped` = the mechanism of the code as found (the model, which mirrors it, lists the same):
+            # hostlist_push() of the bad comma-word returns 0 and opt.c does not look at it.
+            ctx.offender("cli-unbalanced-accepted" + (":word-dropped" if mcls == "ok" else ""),
+                         "pdsh -w TEXT with unbalanced brackets exits 0 and lists %d host(s)%s" %
+                         (len(hosts or []), ": the bad comma-word is dropped without a diagnostic" if mcls == "ok" else ""),
+                         case)
         if not v["ok"] and set(v["problems"]) == {"toomany"} and cls != "fatal:toomany":
             ctx.offender("cli-toomany-" + cls + (":bound>=2^64-1" if feat_big(s) else ""),
                          "pdsh -w with a range larger than the limit: %s instead of the 'too many hosts' diagnostic" % cls,
